@@ -295,4 +295,20 @@ def C08(tier, seed):
     return p
 
 
-PLANS = {"C01": C01, "C02": C02, "C03": C03, "C04": C04, "C10": C10, "C14": C14, "C15": C15, "C16": C16, "C17": C17, "C18": C18, "C19": C19, "C05": C05, "C06": C06, "C07": C07, "C11": C11, "C12": C12, "C13": C13, "C08": C08, "C09": C09}
+def C20(tier, seed):
+    q = tier == "quick"
+    drivers = []
+    for tk, extra in (("spl", []), ("t22fee", []), ("spl", ["--adaptive", "1"]), ("t22", ["--adaptive", "1"])):
+        tag = tk + ("_af" if extra else "")
+        drivers += hist_jobs(f"sdk_{tag}_", seed, 2 if q else 6, 4 if q else 40, 200 if q else 300, tk, ["--sdk", "1"] + extra)
+    drivers += fn_jobs("sdkconv", tier, seed, 1500, 60000, shards_q=2, shards_t=8, extra=["--stride", "16" if q else "1"])
+    return {"active": ["C20"], "drivers": drivers, "models": [], "exhaustive": False,
+            "must_exercise": {"swap": 50, "swap_v2": 50},
+            "explanation": "every swap / swap_v2 of recorded histories (static and adaptive-fee pools, transfer-fee mints, both tick-array encodings) is quoted by the Rust core SDK's compute_swap "
+                           "from the same pre-state bytes (pool, the supplied tick arrays, oracle, clock): equal in/out/fee whenever the program's swap computation succeeded, the SDK may answer "
+                           "on a refused swap only for partial fill / tick-array run-off; tick<->price conversions (strided in quick, every tick in thorough), amount deltas, token estimates for "
+                           "liquidity (incl. the L*price >= 2^192 overflow corner and price exactly on a range boundary) against the program's Anchor and Pinocchio functions; slippage min/max "
+                           "against floor/ceil formulas of the spec"}
+
+
+PLANS = {"C20": C20, "C01": C01, "C02": C02, "C03": C03, "C04": C04, "C10": C10, "C14": C14, "C15": C15, "C16": C16, "C17": C17, "C18": C18, "C19": C19, "C05": C05, "C06": C06, "C07": C07, "C11": C11, "C12": C12, "C13": C13, "C08": C08, "C09": C09}
